@@ -46,6 +46,16 @@ pub fn parse_val(tok: &str) -> Option<PropertyValue> {
         "f" => PropertyValue::Float(f64::from_bits(u64::from_str_radix(rest, 16).ok()?)),
         "s" => PropertyValue::String(String::from_utf8(unhex(rest)?).ok()?),
         "x" => PropertyValue::Blob(unhex(rest)?),
+        // S<n>: a string of n bytes 'a' (n > 1 MiB cannot be logged); D<n>: n nested lists (n > 128 cannot)
+        "S" => PropertyValue::String("a".repeat(rest.parse().ok()?)),
+        "D" => {
+            let n: usize = rest.parse().ok()?;
+            let mut v = PropertyValue::List(Vec::new());
+            for _ in 1..n.max(1) {
+                v = PropertyValue::List(vec![v]);
+            }
+            v
+        }
         "L" => {
             let inner = rest.strip_prefix('<')?.strip_suffix('>')?;
             let mut v = Vec::new();
@@ -87,7 +97,33 @@ fn split_top(s: &str) -> Vec<&str> {
     out
 }
 
+/// depth of a chain of single-element lists that ends in an empty list (the `D<n>` values)
+fn chain_depth(v: &PropertyValue) -> Option<usize> {
+    let mut cur = v;
+    let mut n = 0usize;
+    loop {
+        match cur {
+            PropertyValue::List(l) if l.is_empty() => return Some(n + 1),
+            PropertyValue::List(l) if l.len() == 1 => {
+                n += 1;
+                cur = &l[0];
+            }
+            _ => return None,
+        }
+    }
+}
+
 pub fn show_val(v: &PropertyValue) -> String {
+    if let PropertyValue::String(s) = v {
+        if s.len() >= 256 && s.bytes().all(|b| b == b'a') {
+            return format!("S{}", s.len());
+        }
+    }
+    if let Some(d) = chain_depth(v) {
+        if d >= 16 {
+            return format!("D{}", d);
+        }
+    }
     match v {
         PropertyValue::Null => "n".into(),
         PropertyValue::Bool(b) => format!("b{}", *b as u8),
@@ -243,6 +279,23 @@ impl State for St {
                 },
                 None => "notxn".into(),
             },
+            ["commit_fault", j] => {
+                // commit with an injected I/O error at the j-th log append (hook H1, nervusdb_storage::verif_io):
+                // every append is three steps (length, crc, body); the fault hits one of the three
+                let Ok(j) = j.parse::<u64>() else { return "bad-op".into() };
+                let Some(t) = self.txn.take() else { return "notxn".into() };
+                use nervusdb_storage::verif_io as vio;
+                vio::enable(false, None);
+                vio::reset_counter();
+                vio::arm(vio::Mode::Fault, 3 * j + j % 3);
+                let r = t.commit();
+                vio::disarm();
+                vio::disable();
+                match r {
+                    Ok(()) => "ok".into(),
+                    Err(_) => "err".into(),
+                }
+            }
             ["abort"] => {
                 self.txn = None;
                 "ok".into()
@@ -528,7 +581,45 @@ fn gen_tx(rng: &mut Rng, sim: &mut Sim, mode: Mode, out: &mut dyn Write, wild: b
             sim.dead.insert(*d);
         }
     }
-    let commit = if mode == Mode::Abort { rng.chance(1, 2) } else { rng.chance(9, 10) };
+    // engine_abort: besides commit / drop, transactions abandoned through a FAILED commit — a value
+    // that cannot be logged (larger than 1 MiB, nested deeper than 128) behind other records, or an
+    // injected I/O error at one of the log appends
+    let ending = if mode == Mode::Abort { rng.below(10) } else { 0 };
+    if mode == Mode::Abort && ending >= 5 {
+        let a = pick_live(rng, sim, staged_nodes).unwrap_or(0);
+        let known: Vec<(u32, usize, u32)> = sim.edges.iter().chain(staged_edges.iter()).cloned().collect();
+        let big = if rng.chance(1, 4) { "S1100000" } else { "D200" };
+        let fine = if rng.chance(1, 2) { "S1000" } else { "D100" };
+        match ending {
+            5 | 6 => {
+                // unloggable value: relationship properties are logged last, node properties before them
+                if !known.is_empty() && rng.chance(1, 2) {
+                    let (s, r, d) = *rng.pick(&known);
+                    writeln!(out, "eprop {} {} {} {} {}", s, RELS[r], d, rng.pick(KEYS), big).unwrap();
+                } else {
+                    writeln!(out, "nprop {} {} {}", a, rng.pick(KEYS), big).unwrap();
+                }
+                writeln!(out, "commit").unwrap();
+            }
+            7 | 8 if !wild => {
+                writeln!(out, "commit_fault {}", rng.below(2 + staged_nodes as u64)).unwrap();
+            }
+            _ => {
+                // a large but loggable value, committed
+                writeln!(out, "nprop {} {} {}", a, rng.pick(KEYS), fine).unwrap();
+                writeln!(out, "commit").unwrap();
+                sim.nodes += staged_nodes;
+                sim.used_ext.extend(staged_ext);
+                sim.edges.extend(staged_edges);
+                return true;
+            }
+        }
+        for d in &staged_dead {
+            sim.dead.remove(d);
+        }
+        return false;
+    }
+    let commit = if mode == Mode::Abort { rng.chance(3, 5) } else { rng.chance(9, 10) };
     if commit {
         writeln!(out, "commit").unwrap();
         sim.nodes += staged_nodes;
@@ -725,7 +816,7 @@ fn generate(rng: &mut Rng, n: usize, tier: &str, sink: &mut dyn Write, mode: Mod
                     }
                 }
                 Mode::Abort => {
-                    if rng.chance(1, 6) {
+                    if rng.chance(1, 3) {
                         writeln!(out, "reopen").unwrap();
                         writeln!(out, "dump").unwrap();
                         writeln!(out, "vsearch").unwrap();
